@@ -27,8 +27,10 @@ def feature_series(case):
         return None
     if case["fkind"] == "numeric":
         vals = [None if v is None else (float(v) if isinstance(v, str) else v) for v in case["feature"]]
-        return tc.numeric_series(case["kind"], [None if v is None else (int(v) if case["kind"].startswith("int") else v) for v in vals])
-    return tc.string_series(case["kind"], case["feature"], case.get("enum"))
+        s = tc.numeric_series(case["kind"], [None if v is None else (int(v) if case["kind"].startswith("int") else v) for v in vals])
+    else:
+        s = tc.string_series(case["kind"], case["feature"], case.get("enum"))
+    return s.alias(case.get("fname", "f"))  # a feature may be called like the library's own 'model' column
 
 
 def fvalues(case):
@@ -57,11 +59,13 @@ def call_bias(case, perm=None):
     except Exception as e:
         return {"err": exc_class(e), "msg": str(e)[:200]}
     rows = []
+    fname = case.get("fname", "f")
+    mcol = "model_" if fname == "model" else "model"
     for r in df.iter_rows(named=True):
-        fv = r.get("f")
+        fv = r.get(fname) if case["fkind"] != "none" else None
         if isinstance(fv, float) and math.isnan(fv):
             fv = "nan"
-        rows.append({"model": r.get("model"), "f": fv, "mean": r["bias_mean"], "count": r["bias_count"], "weights": r["bias_weights"],
+        rows.append({"model": r.get(mcol), "f": fv, "mean": r["bias_mean"], "count": r["bias_count"], "weights": r["bias_weights"],
                      "stderr": r["bias_stderr"], "p": r["p_value"]})
     return {"rows": rows, "columns": df.columns}
 
@@ -131,6 +135,8 @@ class C09(Prop):
             from .decomp_common import gen_colnames
 
             c["colnames"] = gen_colnames(rng, nm) if 2 <= nm <= 3 else None
+            if c["fkind"] != "none" and rng.random() < 0.15:
+                c["fname"] = "model"
             yield c
 
     def impl(self, case):
